@@ -23,6 +23,8 @@ import (
 	authtypes "github.com/cosmos/cosmos-sdk/x/auth/types"
 	tmproto "github.com/tendermint/tendermint/proto/tendermint/types"
 
+	abci "github.com/tendermint/tendermint/abci/types"
+
 	"github.com/teleport-network/teleport/app"
 	rvesting "github.com/teleport-network/teleport/x/rvesting/module"
 	rvestingtypes "github.com/teleport-network/teleport/x/rvesting/types"
@@ -39,6 +41,7 @@ type c20World struct {
 	hist   []string
 	reward [][2]string // last accepted reward list (denom, amount) for the oracle
 	enable bool
+	height int64 // height of the last block of the current history (0 = none yet)
 }
 
 func newC20World() *c20World {
@@ -57,6 +60,7 @@ func (w *c20World) reset() {
 	w.seenM = map[string]bool{}
 	w.hist = nil
 	w.enable = false
+	w.height = 0
 	// mirror of DefaultParams for the oracle
 	w.reward = [][2]string{{"atele", "100000000000000000"}}
 	w.see("atele")
@@ -186,7 +190,14 @@ func (w *c20World) apply(r *Rec, op string) string {
 		}
 		restBefore := w.rest(w.ctx)
 		cctx, write := w.ctx.CacheContext()
-		pan, msg := safely(func() { rvesting.BeginBlocker(cctx, w.app.RVestingKeeper) })
+		// the module's own BeginBlock entry point (what the module manager calls), at the history's block heights 1, 2, 3, …:
+		// the property holds for EVERY block, the first one of a chain included
+		w.height++
+		cctx = cctx.WithBlockHeight(w.height)
+		r.Count(fmt.Sprintf("block.height.%s", map[bool]string{true: "first", false: "later"}[w.height == 1]))
+		pan, msg := safely(func() {
+			rvesting.NewAppModule(w.app.RVestingKeeper).BeginBlock(cctx, abci.RequestBeginBlock{Header: cctx.BlockHeader()})
+		})
 		if pan {
 			r.Count("block.panic")
 			r.Find(Finding{Sig: "C20:beginblock-panic:" + dupSig(w.reward), What: "BeginBlocker panics with validated parameters: " + msg,
@@ -273,6 +284,13 @@ func TestC20(t *testing.T) {
 	}
 	for _, h := range corpusOps("C20") {
 		run(append([]string{"reset"}, h...))
+	}
+	probes := 6
+	if r.Tier == "thorough" {
+		probes = 40
+	}
+	for i := 0; i < probes; i++ {
+		c20AppProbe(r)
 	}
 	hist := 3000
 	if r.Tier == "thorough" {
